@@ -53,7 +53,8 @@ def _paths_of(model, f):
     key = ('fn', f['sig'])
     if f['q'] == 'Theo::VM::executeSingle':
         model.handler_paths()
-        return model.paths('executeSingle')
+        # a path whose guards contradict each other about the opcode (op == HALT before the switch, case PREPARE_EXEC in it) is infeasible
+        return [p for p in model.paths('executeSingle') if getattr(p, 'opcodes', None) != set()]
     if key not in model._summ:
         from .vmfx import PathSummary
         noinl = ('Theo::VM::executeSingle',) if f['name'] == 'execute' else ()
@@ -622,15 +623,9 @@ def c06(rep, model):
         # classify by the lookup guard
         look = None
         for t, pol in s.p.guards:
-            tt, pp = t, pol
-            if isinstance(tt, tuple) and tt[0] == 'iteq':
-                a, b = tt[1], tt[2]
-                if isinstance(a, tuple) and a[0] == 'aend':
-                    a, b = b, a
-                if isinstance(a, tuple) and a[0] == 'find' and a[1] == pb and isinstance(b, tuple) and b[0] == 'aend' and b[1] == pb:
-                    look = ('notfound' if pp else 'found', a[2])
-            elif isinstance(tt, tuple) and tt[0] == 'contains' and tt[1] == pb:
-                look = ('found' if pp else 'notfound', tt[2])
+            lt = lookup_test(t, pol)
+            if lt and lt[0] == pb:
+                look = ('found' if lt[2] else 'notfound', lt[1])
         if look is None:
             Cr.unknown('setBreakPoint path', 'path not guarded by a lookup in potential_breaks: guards %s' % (
                 [(t_show(t), p) for t, p in s.p.guards],))
@@ -666,9 +661,21 @@ def c06(rep, model):
         want_op = 'insert' if val else 'erase'
         want_code = 'BREAK' if val else 'POTENTIAL_BREAK'
         why = []
-        if [x[2] for x in setop] != [want_op]:
+        # what the path knows about membership of the key in the enabled set
+        in_set = {lt[1]: lt[2] for lt in (lookup_test(t, pol) for t, pol in s.p.guards) if lt and lt[0] == en}
+        ops = []
+        for x in setop:
+            o, a = x[2], x[3]
+            if o == 'emplace' and len(a) == 1:
+                o = 'insert'           # emplace(x) of a set of x constructs a copy of x: the same insertion
+            if o == 'erase' and len(a) == 1 and isinstance(a[0], tuple) and a[0][0] == 'find' and a[0][1] == en and in_set.get(a[0][2]) is True:
+                a = (a[0][2],)         # erase(find(k)) with the key known to be present is erase(k)
+            ops.append((o, a))
+        if not ops and want_op == 'erase' and in_set.get(key) is False:
+            ops = [('erase', (key,))]  # the key is known to be absent: erasing it would do nothing
+        if [x[0] for x in ops] != [want_op]:
             why.append('enabled-set operations are %s, expected [%s]' % ([x[2] for x in setop], want_op))
-        elif setop[0][3] != (key,):
+        elif ops[0][1] != (key,):
             why.append('%s uses key %s, not the looked-up location' % (want_op, t_show(setop[0][3])))
         if len(writes) != 1 or writes[0] is None:
             why.append('expected exactly one loop rewriting site opcodes, found %s' % (writes,))
@@ -728,17 +735,15 @@ def c06(rep, model):
                 if len(g) == 1:
                     terms = [(g[0][0], g[0][1], r.term)]
             for cond, pol, val in terms:
-                if isinstance(cond, tuple) and cond[0] == 'not':
-                    cond, pol = cond[1], not pol
-                if not (isinstance(cond, tuple) and cond[0] == 'iteq'):
+                lt = lookup_test(cond, pol)
+                if lt is None:
                     why.append('condition %s is not a lookup test' % t_show(cond))
                     continue
-                a, b = cond[1], cond[2]
-                if isinstance(a, tuple) and a[0] == 'aend':
-                    a, b = b, a
-                if not (isinstance(a, tuple) and a[0] == 'find' and a[1] == li):
+                if lt[0] != li:
                     why.append('lookup is not in line_info')
                     continue
+                a = ('find', li, lt[1])
+                pol = not lt[2]
                 want_key = t_add(model.ip0(), C(k), -1)
                 if a[2] != want_key:
                     why.append('looks up %s, but the break handlers leave ip at site+%d (expected key %s)' % (
@@ -751,7 +756,8 @@ def c06(rep, model):
                     else:
                         why.append('not-found result is %s, expected {"none", -1}' % t_show(val))
                 else:
-                    if val == ('init', li + (('mappair', a[2]), ('f', 'second'))):
+                    if val in (('init', li + (('mappair', a[2]), ('f', 'second'))), ('init', li + (('key', a[2]),)),
+                               ('init', li + (('mapelem', a[2]),))):
                         ok_found = True
                     else:
                         why.append('found result is %s, expected the mapped location' % t_show(val))
@@ -768,6 +774,37 @@ def c06(rep, model):
             v = s.final('ip')
             D.check(v is not None and v.term == C(0), 'Theo::VM::%s: ip' % name, 'ip := 0',
                     'ip after %s is %s' % (name, t_show(v.term) if v else 'unchanged'), _where(model, f, f['loc'][1:]))
+
+
+def lookup_test(t, pol):
+    """(container, key, present) when the guard (t, pol) says whether key is in an associative container:
+    find(k) == end(), contains(k), count(k) compared with 0, and their negations."""
+    if not isinstance(t, tuple):
+        return None
+    if t[0] == 'not':
+        return lookup_test(t[1], not pol)
+    if t[0] == 'iteq':
+        a, b = t[1], t[2]
+        if isinstance(a, tuple) and a[0] == 'aend':
+            a, b = b, a
+        if isinstance(a, tuple) and a[0] == 'find' and isinstance(b, tuple) and b[0] == 'aend' and b[1] == a[1]:
+            return (a[1], a[2], not pol)
+        return None
+    if t[0] == 'contains':
+        return (t[1], t[2], pol)
+    if t[0] == 'cmp' and len(t) == 4:
+        op, a, b = t[1], t[2], t[3]
+        if isinstance(b, tuple) and b[0] == 'contains' and a in (C(0), C(1)):
+            a, b = b, a
+            op = {'<': '>', '>': '<', '<=': '>=', '>=': '<='}.get(op, op)
+        if isinstance(a, tuple) and a[0] == 'contains' and b in (C(0), C(1)):
+            # membership is 0 or 1
+            truth = {('==', 0): False, ('!=', 0): True, ('>', 0): True, ('<=', 0): False,
+                     ('==', 1): True, ('!=', 1): False, ('>=', 1): True, ('<', 1): False}.get((op, b[1] if isinstance(b, tuple) else b))
+            if truth is None:
+                return None
+            return (a[1], a[2], truth if pol else not truth)
+    return None
 
 
 def clear_shape(model, s):
